@@ -1,5 +1,8 @@
 import AwsVerif.Proofs.C02.Run
 import AwsVerif.Proofs.C02.IterOnce
+import AwsVerif.Proofs.C02.IterPass
+import AwsVerif.Proofs.C02.TableEq
+import AwsVerif.Proofs.C02.Lookup3
 import AwsVerif.Proofs.C02.HashIC
 /-!
 # C02 — the hash table behaves as a map under any operation history
@@ -232,6 +235,70 @@ theorem c02_iter_any_callback (h : Nat → Nat) (t : Table) (flags : Key → Nat
     Inv h (foreach t flags).table ∧ (foreach t flags).table.dk = t.dk ∧ (foreach t flags).table.dv = t.dv :=
   foreach_inv hinv flags
 
+/-- explicit iterator programs `begin; (look at the element; maybe delete it, with or without destroy_contents;
+maybe stop; next)*` with an arbitrary decision at every element (it may depend on everything shown so far):
+* the program never runs out of fuel and never meets an iterator without element; the invariant is kept;
+* no element is shown twice and only elements present at `begin` are shown (`visits ++ U` is a permutation of
+  the initial contents); if the program never stops early, every element present at `begin` is shown exactly once;
+* the table afterwards holds exactly the initial contents minus the elements deleted through the iterator,
+  and those are elements that were shown;
+* the destructor log is exactly the key/value destructors of the deleted elements whose deletion asked for
+  `destroy_contents` (each only if installed), in deletion order -/
+theorem c02_iter_program (h : Nat → Nat) (t : Table) (hinv : Inv h t)
+    (policy : List (Key × Val) → Key × Val → Decision) :
+    (iterPass t policy).ok = true ∧ Inv h (iterPass t policy).table ∧
+    (iterPass t policy).table.dk = t.dk ∧ (iterPass t policy).table.dv = t.dv ∧
+    (∃ U, ((iterPass t policy).visits ++ U).Perm (contents t) ∧
+          ((∀ vis kv, (policy vis kv).goOn = true) → U = [])) ∧
+    (contents (iterPass t policy).table ++ (iterPass t policy).dels.map (·.1)).Perm (contents t) ∧
+    (iterPass t policy).log = (iterPass t policy).dels.flatMap
+      (fun d => if d.2 then specDestroy t.dk t.dv d.1 else []) ∧
+    ((iterPass t policy).dels.map (·.1)).Sublist (iterPass t policy).visits :=
+  iterPass_spec hinv policy
+
+/-- the full-pass corollary: a program that runs until `done` shows every element exactly once -/
+theorem c02_iter_program_full (h : Nat → Nat) (t : Table) (hinv : Inv h t)
+    (policy : List (Key × Val) → Key × Val → Decision) (hgo : ∀ vis kv, (policy vis kv).goOn = true) :
+    (iterPass t policy).visits.Perm (contents t) := by
+  obtain ⟨_, _, _, _, ⟨U, hU, hnil⟩, _⟩ := iterPass_spec hinv policy
+  rw [hnil hgo, List.append_nil] at hU
+  exact hU
+
+/-- `aws_hash_table_foreach` with ANY callback (per-key flag word: continue / delete / stop / error): the return
+code is success or `AWS_ERROR_UNKNOWN` (never an exhausted loop budget), the invariant is kept, the visited
+prefix has no repeats and consists of initial elements (`visits ++ U` is a permutation of the initial contents;
+`U = []` when the callback never stops or fails), and the table afterwards is the initial contents minus the
+visited elements whose callback asked for deletion (and did not fail) -/
+theorem c02_foreach_any (h : Nat → Nat) (t : Table) (flags : Key → Nat) (hinv : Inv h t) :
+    ((foreach t flags).rc = none ∨ (foreach t flags).rc = some .unknown) ∧ Inv h (foreach t flags).table ∧
+    (∃ U, ((foreach t flags).visits ++ U).Perm (contents t) ∧
+      ((∀ k, flags k &&& ITER_ERROR = 0 ∧ flags k &&& ITER_CONTINUE ≠ 0) → U = [])) ∧
+    (contents (foreach t flags).table ++ (foreach t flags).visits.filter (delB flags)).Perm (contents t) :=
+  foreach_any hinv flags
+
+/-! ## swap, move, eq -/
+
+/-- `aws_hash_table_swap`: the two handles exchange their tables (contents, sizes, destructor configuration:
+the whole state); no destructor runs (there is no log to produce) -/
+theorem c02_swap (a b : Option Table) : swapTables a b = (b, a) := rfl
+
+/-- `aws_hash_table_move`: the destination holds the source's table, the source is zeroed; no destructor runs -/
+theorem c02_move (src : Option Table) : moveTable src = (src, none) := rfl
+
+/-- `aws_hash_table_eq(a, b, value_eq)` as written (compare the counts, then look every entry of `a` up in `b`
+and compare the values through `s_safe_eq_check`) returns true iff the two tables denote the same key→value map
+under that value equality — in both directions, although the code only looks from `a` into `b` -/
+theorem c02_eq (h : Nat → Nat) (a b : Table) (ha : Inv h a) (hb : Inv h b) (veq : Nat → Nat → Bool) :
+    tableEq h veq a b = true ↔ SameMap veq (contents a) (contents b) :=
+  tableEq_sameMap ha hb veq
+
+/-- the same, literally what the loop checks -/
+theorem c02_eq_as_written (h : Nat → Nat) (a b : Table) (hb : Inv h b) (veq : Nat → Nat → Bool) :
+    tableEq h veq a b = true ↔
+      a.entryCount = b.entryCount ∧
+      ∀ kv ∈ contents a, ∃ kv' ∈ contents b, kv'.1.id = kv.1.id ∧ safeEq veq kv.2 kv'.2 = true :=
+  tableEq_iff hb veq
+
 /-! ## [A] c02_hash_eq_consistent -/
 
 /-- `aws_array_eq_ignore_case a b → aws_hash_array_ignore_case a = aws_hash_array_ignore_case b`
@@ -249,6 +316,29 @@ code, which is never the empty-slot marker 0 and fits 64 bits -/
 theorem c02_hashFor_consistent (h : Nat → Nat) (a b : Key) (hab : keysEq a b = true) :
     hashFor h a = hashFor h b ∧ 0 < hashFor h a ∧ hashFor h a < 2 ^ 64 :=
   ⟨hashFor_congr h ((keysEq_iff a b).1 hab), hashFor_pos h a, hashFor_lt h a⟩
+
+/-- the content hashes (`aws_hash_string`, `aws_hash_byte_cursor_ptr` = `hashBytes`, `aws_hash_c_string` =
+`hashCStr`; byte-wise `hashlittle2`) are functions of the key's bytes only: keys identified by the matching
+equality callbacks (`aws_hash_callback_string_eq` / cursor equality = same bytes, `aws_hash_callback_c_str_eq` =
+same bytes up to the NUL) hash equally; results fit 64 bits; a NUL-free C string hashes like the same bytes as
+a string / cursor.  That the C function's 32-bit and 16-bit load paths compute this byte-wise function is
+checked by the correspondence run at all four alignments, not proved. -/
+theorem c02_content_hash_consistent (a b : List UInt8) :
+    (AwsVerif.Lookup3.bytesEq a b = true → AwsVerif.Lookup3.hashBytes a = AwsVerif.Lookup3.hashBytes b) ∧
+    (AwsVerif.Lookup3.cstrEq a b = true → AwsVerif.Lookup3.hashCStr a = AwsVerif.Lookup3.hashCStr b) ∧
+    AwsVerif.Lookup3.hashBytes a < 2 ^ 64 ∧
+    ((∀ x ∈ a, x ≠ 0) → AwsVerif.Lookup3.hashCStr a = AwsVerif.Lookup3.hashBytes a) :=
+  ⟨bytesEq_hash a b, cstrEq_hash a b, hashBytes_lt a, hashCStr_eq_hashBytes a⟩
+
+/-- the byte-wise model (with the rotation constants generated from lookup3.inl) reproduces the values printed
+in lookup3.c's own self-test `driver5()` -/
+theorem c02_lookup3_known_answers :
+    AwsVerif.Lookup3.hashlittle2 [] 0 0 = (0xdeadbeef, 0xdeadbeef) ∧
+    AwsVerif.Lookup3.hashlittle2 [] 0 0xdeadbeef = (0xbd5b7dde, 0xdeadbeef) ∧
+    AwsVerif.Lookup3.hashlittle2 [] 0xdeadbeef 0xdeadbeef = (0x9c093ccd, 0xbd5b7dde) ∧
+    AwsVerif.Lookup3.hashlittle2 fourScore 0 0 = (0x17770551, 0xce7226e6) ∧
+    AwsVerif.Lookup3.hashlittle2 fourScore 0 1 = (0xe3607cae, 0xbd371de4) ∧
+    AwsVerif.Lookup3.hashlittle2 fourScore 1 0 = (0xcd628161, 0x6cbea4b3) := known_answers
 
 /-! ## the hypotheses are satisfiable by non-trivial states -/
 
@@ -268,5 +358,17 @@ example : Inv exH (runModel exH exT0 exOps).1 ∧
     find exH (runModel exH exT0 exOps).1 (.mk 3 7) = some (.mk 3 0, some 3) ∧
     (runModel exH exT0 exOps).2 = [.put true [], .put true [], .put true [], .put false [Ev.k (.mk 1 0), Ev.v (some 1)]] := by
   refine ⟨(run_inv exOps _ (init_inv exH exInit).1).1, by decide, by decide, by decide, by decide⟩
+
+/-- an explicit iterator program on that table: delete (with destroy_contents) every element whose key identity
+is odd, keep the others, run until done — three visits, the two odd keys deleted and destroyed, key 2 left -/
+def exPolicy : List (Key × Val) → Key × Val → Decision := fun _ kv =>
+  match kv.1 with
+  | .mk i _ => { delete := if i % 2 = 1 then some true else none, goOn := true }
+  | .null => { delete := none, goOn := true }
+
+example : (iterPass (runModel exH exT0 exOps).1 exPolicy).ok = true ∧
+    (iterPass (runModel exH exT0 exOps).1 exPolicy).visits.length = 3 ∧
+    contents (iterPass (runModel exH exT0 exOps).1 exPolicy).table = [(.mk 2 0, some 2)] ∧
+    (iterPass (runModel exH exT0 exOps).1 exPolicy).log.length = 4 := by decide
 
 end AwsVerif.Props.C02
